@@ -6,23 +6,23 @@ LIB = ['src/runtime/fair_thread_pool.cpp', 'src/util/intrusive_list.cpp', 'src/e
 STOPS = [('c08_stop', 0), ('c08_softstop', 1), ('c08_hardstop', 2)]
 
 
-def entry(name, units, trig, kind):
+def entry(name, units, trig, kind, outer='c08_worker'):
     """units: [fn,...] pending units in order; trig: [(ctx, k), ...]"""
     s = 'void %s(void) {\n  vp_spurious_cfg = 0;\n  vp_init();\n  c08_prologue();\n  vp2_nunits = %d;\n' % (name, len(units))
     for u, (fn, (ctx, k)) in enumerate(zip(units, trig)):
         s += '  vp2_sel[%d] = %d; vp2_u_ctx[%d] = %d; vp2_u_k[%d] = %d;\n' % (u, ALL_UNITS.index(fn) + 1, u, ctx, u, k)
-    s += '  vp2_enabled = 1;\n  c08_worker();\n  vp2_run_rest();\n  vp2_enabled = 0;\n  c08_epilogue(%d);\n}\n' % kind
+    s += '  vp2_enabled = 1;\n  %s();\n  vp2_run_rest();\n  vp2_enabled = 0;\n  c08_epilogue(%d);\n}\n' % (outer, kind)
     return s
 
 
-ALL_UNITS = ['c08_submitter', 'c08_stop', 'c08_softstop', 'c08_hardstop']
+ALL_UNITS = ['c08_submitter', 'c08_stop', 'c08_softstop', 'c08_hardstop', 'c08_worker', 'c08_resubmitter']
 
 
 def plan(tier, seed, ctx):
     kw = 10 if tier == 'quick' else 14      # schedule points of the worker at which a pending unit may be triggered
     ks = 6 if tier == 'quick' else 8        # schedule points of the submitter at which the stopper may be triggered
     modules = {'c08': [('harness/C08_api.cpp', 'prod17')] + [(l, 'prod17') for l in LIB]}
-    head = core.decls(ALL_UNITS + ['c08_prologue', 'c08_worker']) + 'void c08_epilogue(uint32_t);\nint vp2_sel[4];\nvoid vp_unit_run(int u) {\n' + \
+    head = core.decls(ALL_UNITS + ['c08_prologue']) + 'void c08_epilogue(uint32_t);\nint vp2_sel[4];\nvoid vp_unit_run(int u) {\n' + \
         ''.join('  if (vp2_sel[u] == %d) { %s(); return; }\n' % (i + 1, f) for i, f in enumerate(ALL_UNITS)) + '}\n'
     queries = []
     first = [True]
@@ -48,6 +48,23 @@ def plan(tier, seed, ctx):
             nm = 'c08_%s_T%s_Safter' % (tag, 'b' if k0 == NEVER else k0)
             add(nm, entry(nm, [sf, 'c08_submitter'], [(0, k0), (0, NEVER)], kind),
                 '%s: stopper at worker schedule point %s, submitter only when the worker blocks / at the end' % (tag, k0), 'c08_' + tag)
+        # the SUBMITTER is the outer thread: at its schedule point k the stopper runs and then the worker runs (to its exit, if it was told to stop),
+        # or the worker first and the stopper after it -- the worker finishes while a Submit is still in progress
+        for k in range(ks + 2):
+            nm = 'c08_%s_subm_T%d_W%d' % (tag, k, k)
+            add(nm, entry(nm, [sf, 'c08_worker'], [(0, k), (0, k)], kind, outer='c08_submitter'),
+                '%s: submitter is the outer thread; at its schedule point %d the stopper runs, then the worker' % (tag, k), 'c08_subm_' + tag)
+            nm = 'c08_%s_subm_W%d_T%d' % (tag, k, k)
+            add(nm, entry(nm, ['c08_worker', sf], [(0, k), (0, k)], kind, outer='c08_submitter'),
+                '%s: submitter is the outer thread; at its schedule point %d the worker runs (until it blocks), then the stopper' % (tag, k), 'c08_subm_' + tag)
+        # a job whose Drop()/Call() submits another job to the same pool (continuations do that): after the stop, and racing with it
+        for k0 in [NEVER] + list(range(4)):
+            nm = 'c08_%s_resubmit_T%s' % (tag, 'b' if k0 == NEVER else k0)
+            add(nm, entry(nm, [sf, 'c08_resubmitter'], [(0, k0), (0, NEVER)], kind),
+                '%s: stopper at worker schedule point %s, then a job is submitted whose Drop()/Call() submits a second job to the same pool' % (tag, k0), 'c08_resub_' + tag)
+        nm = 'c08_%s_resubmit_first' % tag
+        add(nm, entry(nm, ['c08_resubmitter', sf], [(0, NEVER), (0, NEVER)], kind),
+            '%s: a job whose Call() submits a second job runs, the stopper afterwards' % tag, 'c08_resub_' + tag)
     meta = {
         'rule': 'Per stop kind one query per placement of the submitter (2 jobs) and the stopper relative to the single worker: each pending unit runs to completion at an enumerated schedule '
                 'point of the worker (or of the submitter), or when the running thread blocks. Schedule points are every mutex, condition-variable and thread operation and the job bodies. All pool state '
@@ -55,7 +72,7 @@ def plan(tier, seed, ctx):
         'bounds': {'workers': 1, 'jobs': 2, 'logical_threads': 3, 'worker_points': kw, 'submitter_points': ks, 'schedules': 'well-nested (a pending unit runs to completion where it is triggered)'},
         'stubs': ['pthread_mutex_lock/unlock, std::condition_variable::{wait,notify_one,notify_all}, std::thread::{_M_start_thread,join,hardware_concurrency} modelled in rt/vp_sync.c '
                   '(a blocked thread lets the pending units run; a block with nobody left = deadlock failure)', 'leaf jobs recording order/overlap/counts'],
-        'assumptions': ['n > 1 workers, jobs that resubmit, and schedules in which submitter and stopper mutually interleave more than one window deep are outside the claim',
+        'assumptions': ['n > 1 workers, more than one level of re-submission, and schedules in which submitter and stopper mutually interleave more than one window deep are outside the claim',
                         'std::vector / std::unique_lock / std::thread wrapper code is encoded as instantiated by clang; libstdc++.so and glibc behind them are models'],
         'functions_filter': r'(FairThreadPool|List|c08_|thread)',
         'explanation': 'Real code: all of src/runtime/fair_thread_pool.cpp, src/util/intrusive_list.cpp.',
@@ -68,7 +85,7 @@ MANIFEST = {
                   'three threads at mutex/condvar/thread operations (and when a thread blocks): every job Called xor Dropped exactly once; without HardStop a job is dropped only by the Submit that is refused '
                   '(everything accepted runs); after Wait returns nothing runs; jobs start in submission order; SoftStop never drops an accepted job; no worker is left blocked forever (deadlock probe); '
                   'thread state and vector storage are released.',
-    'level_note': '1 worker, 2 jobs, modelled pthread/std::thread boundary, well-nested schedules. Trusted: clang -O1 IR, ir2c, rt/vp_sync.c models, cbmc.',
+    'level_note': '1 worker, 2 jobs (+ a job that re-submits from Call/Drop), worker-outer and submitter-outer nestings, modelled pthread/std::thread boundary (mutex model detects self-deadlock), well-nested schedules. Trusted: clang -O1 IR, ir2c, rt/vp_sync.c models, cbmc.',
     'technique': 'bounded model checking of the real code over a modelled thread/mutex/condvar boundary with solver-decided schedule cubes',
     'design_ref': 'DESIGN.md 4 C08',
 }
